@@ -455,7 +455,7 @@ Definition judge (t : tree) : tree :=
           verdict (obs_diffs10 m o) (clauses 10 (spec_c10 i o)) (enc_obs10 m) (tags10 i)
       | _, _, _, _, _ => malformed
       end
-  | T [T [L 11; src; roots; msgs]; obs] =>
+  | T [T (L 11 :: src :: roots :: msgs :: _); obs] =>
       match dec_party src, getList dec_rnode roots, getList dec_msg msgs, getList dec_obs11_one obs with
       | Some src, Some roots, Some msgs, Some o =>
           let i := {| i_src := src; i_roots := roots; i_msgs := msgs |} in
